@@ -518,11 +518,12 @@ def run(eng, run):
     from sa.anchors import verify as _verify_anchor_names
     _verify_anchor_names(eng, run)
     run.not_decided += NOT_DECIDED
-    check_drive(eng, run)
-    check_receivers(eng, run)
-    check_conn(eng, run)
-    check_shared(eng, run)
-    check_own_closing_flag(eng, run)
+    run.attempt(check_drive, eng, run)
+    run.attempt(check_receivers, eng, run)
+    run.attempt(check_conn, eng, run)
+    run.attempt(check_shared, eng, run)
+    run.attempt(check_own_closing_flag, eng, run)
+    run.end_of_rules()
 
 
 # ---------------------------------------------------------------------------------------------- self-test corpus
